@@ -815,6 +815,84 @@ def s_partition_point(ex, st, fr, text, args):
 
 
 # ------------------------------------------------------------------------------------------------
+# atomics in statics (hidden global state): the contents live in the explored state (st.aux['atomics']), keyed by the
+# place of the atomic or, for arrays of atomics, of the array (a z3 array Int -> Int, so the index may be symbolic).
+# One thread: load / store / swap / fetch_add with any ordering are plain reads and writes.
+
+def _atomic_loc(ex, st, r):
+    """-> (key, index term or None, initial value getter)"""
+    if not isinstance(r, Ref):
+        raise Inconclusive('atomic access through %r' % (r,))
+    if r.path and r.path[-1][0] in ('isym', 'i'):
+        arr_ref = Ref(r.fid, r.local, r.path[:-1])
+        arr = ex.deref(st, arr_ref)
+        if isinstance(arr, A) and arr.f and all(isinstance(x, Native) and x.tag == 'atomic' for x in arr.f):
+            idx = r.path[-1][1]
+            idx = z3.IntVal(idx) if isinstance(idx, int) else idx
+
+            def init():
+                vals = [x.p[0] for x in arr.f]
+                if not all(v.conc() for v in vals):
+                    raise Inconclusive('array of atomics with symbolic initial values')
+                a0 = z3.K(z3.IntSort(), z3.IntVal(vals[0].v))
+                for k, v in enumerate(vals):
+                    if v.v != vals[0].v:
+                        a0 = z3.Store(a0, k, v.v)
+                return a0
+            return ('arr', r.fid, r.local, r.path[:-1]), idx, init, arr.f[0].p[0].w
+    v = ex.deref(st, r)
+    if not (isinstance(v, Native) and v.tag == 'atomic'):
+        raise Inconclusive('atomic access to %r' % (v,))
+    return ('one', r.fid, r.local, r.path), None, (lambda: v.p[0]), v.p[0].w
+
+
+def _atomic_get(ex, st, r):
+    ex.hidden_state = True
+    key, idx, init, w = _atomic_loc(ex, st, r)
+    mem = st.aux.get('atomics', {})
+    cur = mem[key] if key in mem else init()
+    if idx is None:
+        return cur
+    v = z3.simplify(z3.Select(cur, idx))
+    return S(w, v.as_long() if z3.is_int_value(v) else v)
+
+
+def _atomic_set(ex, st, r, val):
+    ex.hidden_state = True
+    key, idx, init, w = _atomic_loc(ex, st, r)
+    mem = dict(st.aux.get('atomics', {}))
+    if idx is None:
+        mem[key] = val
+    else:
+        cur = mem[key] if key in mem else init()
+        mem[key] = z3.Store(cur, idx, val.v if not isinstance(val.v, int) else z3.IntVal(val.v))
+    st.aux['atomics'] = mem
+
+
+@summary(r'^(std::sync::atomic::|core::sync::atomic::)?Atomic(::<.*>|U8|U16|U32|U64|Usize|Bool)?::new$', 'Atomic*::new')
+def s_atomic_new(ex, st, fr, text, args):
+    return Native('atomic', (args[0],))
+
+
+@summary(r'^(std::sync::atomic::|core::sync::atomic::)?Atomic(::<.*>|U8|U16|U32|U64|Usize|Bool)?::load$', 'Atomic*::load (single thread: the current contents)')
+def s_atomic_load(ex, st, fr, text, args):
+    return _atomic_get(ex, st, args[0])
+
+
+@summary(r'^(std::sync::atomic::|core::sync::atomic::)?Atomic(::<.*>|U8|U16|U32|U64|Usize|Bool)?::store$', 'Atomic*::store (single thread)')
+def s_atomic_store(ex, st, fr, text, args):
+    _atomic_set(ex, st, args[0], args[1])
+    return UNIT
+
+
+@summary(r'^(std::sync::atomic::|core::sync::atomic::)?Atomic(::<.*>|U8|U16|U32|U64|Usize|Bool)?::swap$', 'Atomic*::swap (single thread)')
+def s_atomic_swap(ex, st, fr, text, args):
+    old = _atomic_get(ex, st, args[0])
+    _atomic_set(ex, st, args[0], args[1])
+    return old
+
+
+# ------------------------------------------------------------------------------------------------
 # thread-local Cells (hidden global state): the cell lives in the root frame of the explored state, so it is shared
 # by everything that runs in that state (lexers, clones, successive calls) exactly like a thread-local
 
@@ -849,6 +927,7 @@ def s_cell_replace(ex, st, fr, text, args):
 
 @summary(r'^(std::thread::)?LocalKey::<.*>::with::<', 'LocalKey::with(f): f(&cell) on the per-state cell, initialised from the const initialiser of the thread_local! (lazy initialisers are not modelled)')
 def s_tls_with(ex, st, fr, text, args):
+    ex.hidden_state = True
     key = args[0]
     if isinstance(key, Ref):
         key = ex.deref(st, key)
